@@ -92,9 +92,9 @@ CLAIMS = {
             "import version/format mismatch (C14), checked_push, rollback without record are not decided.",
             "refusal paths of the step harnesses", "4 (C13 row), 5"),
     "C15": ("model_checking",
-            "LazyVecFrom1/2/3 over mock sources with symbolic contents and unequal lengths: every range/point/sorted read equals the defining formula and the "
+            "LazyVecFrom1/2/3 and LazyDeltaVec<DeltaSub> over mock sources with symbolic contents and unequal lengths: every range/point/sorted read equals the defining formula and the "
             "length equals the governing length; reachable panics are failures.",
-            "Bounds: sources <= 3 elements; LazyDeltaVec and LazyAggVec are NOT covered yet.",
+            "Bounds: sources <= 3 elements. LazyDeltaVec is covered for DeltaSub (incl. empty windows, which exposed fixed defect F05); LazyAggVec is NOT decided (its harness exceeds 30 GB).",
             "formula-equality harnesses over mock sources", "4 (C15 row), 5"),
     "C17": ("model_checking",
             "Every on-disk decoder is symbolically executed on arbitrary bytes (RegionMetadata slot: all 4096 bytes symbolic) and every encoder/decoder pair on "
